@@ -6,12 +6,15 @@ M_MENU = [[1], [2], [1, 2]]
 
 
 def gen_case(r, kind):
-    traits = r.choice([0, 0, 1, 2])
+    traits = r.choice([0, 0, 1, 2, 3])
     ops = []
     live = []; dead = list(range(0, 1000)); content = {}
     uniq = [u for u in U_MENU if r.chance(1, 2)]; multi = [m for m in M_MENU if r.chance(3, 4)] or [[1]]
     nk1 = r.choice([1, 2, 4, 12]); nk2 = r.choice([1, 3, 5])
+    huge = (kind == 'huge')
+    if huge: kind = 'big'; nk1 = 1; nk2 = 1; multi = [[1]] + [m for m in multi if m != [1]]
     target = {'small': r.range(3, 14), 'mid': r.range(60, 150), 'big': r.choice([66, 130, 194, 200, 322, 330, 450])}[kind]
+    if huge: target = 455
     nops = {'small': r.range(20, 60), 'mid': target + r.range(60, 160), 'big': target + r.range(80, 200)}[kind]
     fault = {'small': 30, 'mid': 10, 'big': 3}[kind]
     pend = [('NU', u) for u in uniq] + [('NM', m) for m in multi]
@@ -72,7 +75,8 @@ def gen_cases(r, scale):
         cases.append('X 0 | ' + ' | '.join('SEG %d' % n for n in grid[i:i + 40]))
     for _ in range(200 * scale): cases.append(gen_case(r, 'small'))
     for _ in range(50 * scale): cases.append(gen_case(r, 'mid'))
-    for _ in range(24 * scale): cases.append(gen_case(r, 'big'))
+    for _ in range(24 * scale - 1): cases.append(gen_case(r, 'big'))
+    cases.append(gen_case(r, 'huge'))
     return cases
 
 
@@ -81,7 +85,7 @@ def correspond(ctx, exe, model_exe, cases, run_resilient):
     lines, err = run_resilient(ctx, exe, cases, 'index-impl')
     path = os.path.join(ctx.build, 'index.cases'); open(path, 'w').write('\n'.join(cases) + '\n')
     ctx.evaluations += len(cases)
-    ctx.coverage['harness_idx_stats'] = err.strip().splitlines()[-1][-200:] if err.strip() else ''
+    ctx.coverage['harness_idx_stats'] = err.strip().splitlines()[-1][-1500:] if err.strip() else ''
     bad = []
     for c, out in zip(cases, lines):
         m = re.search(r'!ORACLE-FAIL:(.*)', out)
